@@ -50,8 +50,8 @@ struct StatusArray
 };
 
 extern "C" {
-   extern int g_k; extern R v_act; extern int g_cpa_calls, g_cpa_unscaled, g_cpa_args_ok, g_sync_calls;
-   extern R* gp_max; extern R* gp_sum;
+   extern int g_k; extern int g_cpa_calls, g_cpa_unscaled, g_cpa_args_ok, g_sync_calls;
+   extern R* gp_max; extern R* gp_sum; extern R* gp_a; extern R* gp_b; extern R* gp_x; extern R v_dlo, v_dup;
 }
 
 /* SPxLPBase<R>: only what the violation getters read.  lowerUnscaled(i) etc. are accessors of the LP "as the
@@ -74,7 +74,7 @@ struct LPStub
       g_cpa_args_ok = (primal.val == primal_expected && activity.dimen == nr);
       R a = nondet_double();
       __CPROVER_assume(a == a);      /* activity is not NaN (listed in "trusted") */
-      if(0 <= g_k && g_k < activity.dimen) { activity.val[g_k] = a; v_act = a; }
+      if(0 <= g_k && g_k < activity.dimen) { activity.val[g_k] = a; v_dlo = left.val[g_k] - a; v_dup = a - right.val[g_k]; }
    }
    const R* primal_expected;
 };
@@ -194,8 +194,12 @@ extern "C" int w_viol(R* a, R* b, R* x, R* scratch, const int* st_solver, const 
    h._solReal._isPrimalFeasible = realFeas != 0; h._solRational._isPrimalFeasible = ratFeas != 0;
    h._hasSolReal = hasSolReal != 0; h._hasSolRational = hasSolRational != 0; h._hasBasis = hasBasis != 0;
    h.maxviol_ = maxviol; h.sumviol_ = sumviol;
-   gp_max = maxviol; gp_sum = sumviol; gp_scratch = scratch; g_scratch_n = n; g_scratch_used = 0;
+   gp_max = maxviol; gp_sum = sumviol; gp_a = a; gp_b = b; gp_x = x; gp_scratch = scratch; g_scratch_n = n; g_scratch_used = 0;
    g_cpa_calls = 0; g_sync_calls = 0;
+#ifdef KIND_BOUND
+   /* ghost copies of the two differences the contract speaks about (bit-exact; see contract.c) */
+   if(0 <= g_k && g_k < n) { v_dlo = a[g_k] - x[g_k]; v_dup = x[g_k] - b[g_k]; }
+#endif
    return h.body() ? 1 : 0;
 }
 #endif
